@@ -79,20 +79,30 @@ CLAIMS = {
  "C11": ("Lean theorems C11_grammar_tiers_documented / C11_grammar_ops_documented (the BinTier/NonAssoc chain and operator groups "
          "extracted from parser.lalrpop on this run are the documented ten levels, tightest * / ... loosest ||, comparisons and "
          "'in' not chaining), C11_model_tiers_documented (the Lean parser model uses the same table), C11_preamble_values (every "
-         "predefined name of the preamble text extracted from program.rs lexes to its CS:APP value), with Tie.Lexer (character "
+         "predefined name of the preamble text extracted from program.rs lexes to its CS:APP value), C11_binary / C11_hex / C11_decimal / C11_digit (for every digit string of every length followed by any non-digit: a 0b literal of at most 128 digits lexes to its base-2 value with width = digit count, a 0x literal to its base-16 value and a decimal literal to its base-10 value, unsized, exactly when the value is below 2^128, and to InvalidConstant otherwise; the span is the literal), with Tie.Lexer (character "
          "classes, token table) and Tie.Grammar. The lexer and expression-parser models are compared with the real lexer/parser "
          "token by token and node by node including spans; the oracle is by construction: minimal-parenthesis, full-parenthesis "
          "and comment/blank-laden renderings of one tree must parse identically, literals of known value must lex to it.",
          "The LALRPOP-generated LR automaton is not modelled; the model is a precedence-climbing parser validated against it. "
          "Statement-level grammar is tied only through the AST hook (statements_sexp) used by all program streams.",
          "Lean 4 proof by kernel evaluation over the extracted grammar/preamble + differential correspondence + construction oracle"),
- "C12": ("Lean theorems C12_values_schedule_independent (= C01_order_independent: any two valid schedules of the same action "
-         "set give identical values on every wire) and C12_loop_verdict_order_independent (two iteration orders of the same "
-         "dependency graph either both report a loop or both schedule; via C10_cycle_iff). Every generated program (accepted, "
-         "faulty, looping) is built and run 4-8 times in-process with fresh hash seeds and must behave identically; the CLI is "
-         "run repeatedly in C19's stream.",
-         "Renaming/statement-permutation invariance is exercised by the shuffled generators but not stated as a theorem.",
-         "Lean 4 proof (uniqueness of settlement; graph-level order independence) + repeated builds under fresh hash seeds"),
+ "C12": ("Lean theorems, for every statement list, flag set and every pair of iteration orders o1, o2 of all the hash tables "
+         "(permutations at every point where the code iterates over a HashMap/HashSet): C12_verdict_order_independent / "
+         "C12_rejected_on_every_run (Program::new accepts under o1 iff it accepts under o2), C12_constants_order_independent "
+         "(resolve_constants yields the same values whatever topological order the sorter returns: a table that explains itself "
+         "is what every order computes), C12_accepted (two accepting builds have the same constants, banks, defaulted wires and "
+         "wire types, the same *set* of value-writing actions, each list a valid schedule, followed by the same list of "
+         "state-changing actions), C12_cycle and C12_run (from the same memory image the two builds start in the same state, "
+         "stop after the same number of cycles and end with the same registers, memory, status and value on every wire), "
+         "C12_report (like states give the same banner, cycle count and status code). Underneath: check_congr/fixMux_congr "
+         "(the width checker reads its tables only at the referenced names), execAction_congr, C01_order_independent, "
+         "C10_cycle_iff. Every generated program (accepted, faulty, looping) is also built and run 4-8 times in-process with "
+         "fresh hash seeds and must behave identically; the CLI is run repeatedly in C19's stream.",
+         "partial: for rejected programs the theorem gives 'rejected on every run'; that the *set* of diagnostics is the same "
+         "(loop contents excepted) and the byte-identity of the printed text are sampled (8 rebuilds per program, S-DUMP, "
+         "CLI stream), not proved. Renaming invariance is exercised by the generators but not stated as a theorem.",
+         "Lean 4 proof (order-independence of constants, verdict, action set and whole runs, by induction over the loops and "
+         "uniqueness of settlement) + repeated builds under fresh hash seeds"),
  "C13": ("Lean theorems C13_construction_no_internal_error (for every statement list with well-formed literals and widths, every flag set, every classification of bank letters and every iteration order of the hash tables, whatever diagnostics the model of Program::new returns, none is InternalPanic: every assert!, unwrap(), panic! and unchecked slice of resolve_constants, preprocess_fixed, assignments_to_actions, the sorter, the register-bank stage and constant evaluation is modelled as an InternalPanic diagnostic and shown unreachable; this includes that the topological order always satisfies the loop's assert!(covered..)), C13_accepted_runs (= C07_accepted: an accepted program's run never panics), C13_lexer_progress / C13_lexer_terminates (the lexer loop consumes input on every turn), C13_render_total / C13_render_total_y86 / C13_lookup_total (show_region, line_number_and_bounds, filename never slice, subtract or index out of range, for any offsets incl. usize::MAX). The LALRPOP parser and the message building of errors.rs are tied by S-TEXT (model of Program::new on every text that parses, lexer model on every text that does not) and S-BYTES (the real binary on arbitrary bytes).",
          'partial: the generated LR automaton with its error recovery and the message formatting of errors.rs (which slices the source text itself in three places) are not modelled; they are covered by the fuzzing streams, which sample (defect D26 was in exactly that code and was found by a mutation sub-agent, not by the streams).',
          'Lean 4 proof (termination measure, table/boundary invariants) + differential correspondence + fuzzing oracle on the real binary'),
